@@ -1,4 +1,6 @@
 //! fqv-fine: schedule exploration of fast_qr at function-entry granularity (C14 sub-exploration (d)).
+//! Every execution runs in a forked child of the (single-threaded) explorer, so process-wide state of the subject
+//! never carries over from one schedule to the next.
 //!
 //!   fqv-fine explore --tier quick|thorough      run all programs (children in parallel), print one JSON report
 //!   fqv-fine program <idx> <k> <bound> <shard> <nshards> <stall_ms>   explore one shard of one program (child)
@@ -200,7 +202,7 @@ struct Execution {
     candidates: u64,
 }
 
-fn run_once(p: &Program, prefix: &[usize], k: u32, stall_ms: u64) -> Execution {
+fn run_once_here(p: &Program, prefix: &[usize], k: u32, stall_ms: u64) -> Execution {
     let n = p.threads.len();
     let sched = Sched::new(n, prefix.to_vec(), stall_ms);
     let shared = shared_builder_of(p);
@@ -247,6 +249,98 @@ fn run_once(p: &Program, prefix: &[usize], k: u32, stall_ms: u64) -> Execution {
     }
     let (decisions, error, released) = sched.take();
     Execution { results, decisions, error, released, canary: sched.canary.load(std::sync::atomic::Ordering::SeqCst), events, candidates }
+}
+
+extern "C" {
+    fn fork() -> i32;
+    fn pipe(fds: *mut i32) -> i32;
+    fn waitpid(pid: i32, status: *mut i32, options: i32) -> i32;
+    fn _exit(code: i32) -> !;
+    fn close(fd: i32) -> i32;
+}
+
+/// One execution in a process of its own (fork of the single-threaded explorer, which has never run the subject):
+/// whatever the subject keeps in statics — a lazily initialised table, a process-wide cache, a counter — starts
+/// from the same state in every execution, so the sequence of candidate points is a function of the schedule alone
+/// and a correct cache does not make prefixes diverge. The child writes its execution record to a pipe.
+fn run_once(p: &Program, prefix: &[usize], k: u32, stall_ms: u64) -> Execution {
+    use std::io::{Read, Write};
+    use std::os::unix::io::FromRawFd;
+    let mut fds = [0i32; 2];
+    if unsafe { pipe(fds.as_mut_ptr()) } != 0 {
+        return run_once_here(p, prefix, k, stall_ms);
+    }
+    let pid = unsafe { fork() };
+    if pid < 0 {
+        unsafe {
+            close(fds[0]);
+            close(fds[1]);
+        }
+        return run_once_here(p, prefix, k, stall_ms);
+    }
+    if pid == 0 {
+        unsafe { close(fds[0]) };
+        let x = run_once_here(p, prefix, k, stall_ms);
+        let mut out = String::with_capacity(64 + 24 * x.decisions.len());
+        out.push_str(&format!("H {} {} {} {} {}\n", x.released as u8, x.canary, x.events, x.candidates, x.error.clone().unwrap_or_default().replace('\n', " ")));
+        for r in &x.results {
+            match r {
+                None => out.push_str("R -\n"),
+                Some(v) => out.push_str(&format!("R {}\n", v.iter().map(|d| d.to_string()).collect::<Vec<_>>().join(" "))),
+            }
+        }
+        for d in &x.decisions {
+            out.push_str(&format!("D {} {} {} {} {}\n", d.choice, d.enabled, d.running_enabled as u8, d.thread_chosen, d.site));
+        }
+        let mut f = unsafe { std::fs::File::from_raw_fd(fds[1]) };
+        let _ = f.write_all(out.as_bytes());
+        let _ = f.flush();
+        drop(f);
+        unsafe { _exit(0) }
+    }
+    unsafe { close(fds[1]) };
+    let mut f = unsafe { std::fs::File::from_raw_fd(fds[0]) };
+    let mut txt = String::new();
+    let _ = f.read_to_string(&mut txt);
+    drop(f);
+    let mut status = 0i32;
+    unsafe { waitpid(pid, &mut status, 0) };
+    let mut x = Execution { results: vec![], decisions: vec![], error: None, released: false, canary: 0, events: 0, candidates: 0 };
+    let mut header = false;
+    for line in txt.lines() {
+        let mut it = line.splitn(2, ' ');
+        match (it.next(), it.next()) {
+            (Some("H"), Some(rest)) => {
+                let parts: Vec<&str> = rest.splitn(5, ' ').collect();
+                if parts.len() >= 4 {
+                    header = true;
+                    x.released = parts[0] == "1";
+                    x.canary = parts[1].parse().unwrap_or(0);
+                    x.events = parts[2].parse().unwrap_or(0);
+                    x.candidates = parts[3].parse().unwrap_or(0);
+                    if parts.len() == 5 && !parts[4].is_empty() {
+                        x.error = Some(parts[4].to_string());
+                    }
+                }
+            }
+            (Some("R"), Some("-")) => x.results.push(None),
+            (Some("R"), Some(rest)) => x.results.push(Some(rest.split(' ').filter_map(|t| t.parse().ok()).collect())),
+            (Some("R"), None) => x.results.push(Some(vec![])),
+            (Some("D"), Some(rest)) => {
+                let v: Vec<u64> = rest.split(' ').filter_map(|t| t.parse().ok()).collect();
+                if v.len() == 5 {
+                    x.decisions.push(Decision { choice: v[0] as usize, enabled: v[1] as usize, running_enabled: v[2] == 1, thread_chosen: v[3] as usize, site: v[4] });
+                }
+            }
+            _ => {}
+        }
+    }
+    if !header || x.results.len() != p.threads.len() {
+        // the child died (abort, stack overflow) or was cut short: every thread counts as not having returned
+        x.results = vec![None; p.threads.len()];
+        x.error = Some(format!("execution process died (wait status {})", status));
+    }
+    x
 }
 
 // ---------------------------------------------------------------- pristine expectations
